@@ -69,7 +69,11 @@ def _gsd(res, index):
         it2 = Interp(index, config={"fold_branches": True})
         r2 = it2.run_entry(reader, None, args={"params": params, "dimensions": vconst(dims)})
         res.evaluations += it2.stats["stmts"]
-        built = [v for (v, s, n) in r2["returns"] if v.obj is not None]
+        from ..values import alt_objs
+        built = []
+        for (v, s_, n_) in r2["returns"]:
+            for o_ in sorted(alt_objs(v), key=lambda o: o.oid):
+                built.append(v if v.obj == o_ else Val(kind="obj", obj=o_, dim=v.dim))
         names = [v.obj.cls.name for v in built]
         where = f"{p.getter.file}:{p.getter.lineno}"
         if not built:
@@ -102,7 +106,7 @@ def _gsd(res, index):
         target = [v for v in built if v.obj.cls.name == cls.name][0]
         oid = target.obj.oid
         flow_bad = False
-        finals = [s.comp.get("__symstore", {}) for (v, s, n) in r2["returns"] if v.obj is not None and v.obj.oid == oid]
+        finals = [s.comp.get("__symstore", {}) for (v, s, n) in r2["returns"] if any(o_.oid == oid for o_ in alt_objs(v))]
         for attr in SCALAR_ATTRS:
             vals = [f.get((oid, attr)) for f in finals if (oid, attr) in f]
             if not vals:
